@@ -1,5 +1,5 @@
-\* as is: three peers for a limit of two (the soft limit is overshot)
-SPECIFICATION Spec
+\* witness wanted (coarse schedule, replayable): HardLimit fails for the code as it is
+SPECIFICATION SpecB
 CONSTANTS
   Peers = {"p1", "p2", "p3"}
   Self = "self"
@@ -7,18 +7,19 @@ CONSTANTS
   Workers = {"w1", "w2"}
   Callers = {}
   Delay = 1
-  MaxRounds = 2
+  MaxRounds = 1
   MaxDrops = 0
   MaxInbound = 0
   MaxFail = 0
   MaxCalls = 0
   MaxApi = 0
-  WithGC = TRUE
+  WithGC = FALSE
   AtomicPeers = FALSE
   SignedWant = FALSE
   Serialized = FALSE
   DirectAPI = FALSE
+  MaxLen = 200
 CHECK_DEADLOCK FALSE
 VIEW state
-INVARIANTS TypeOK SizeBound ReportedExactlyOnce ViewBookkeeping PeersResult
-PROPERTIES ContactLeavesBackoff GCInvisible
+ACTION_CONSTRAINT CoarseSchedule
+INVARIANTS HardLimit
